@@ -288,7 +288,9 @@ Definition track_plan (f : fsys) (mreq : option method) (p : path) : option tpla
       let isnew := negb (tracked f p) in
       let changed := isnew || negb (opt_N_eqb (rec_stamp f p) (Some s)) in
       let stored := rec_method f p in
-      let m := match mreq with Some m => m | None => or_default stored MCopy end in
+      (* TrackCLI::update_from_conf replaces a missing --recheck-method by the configured default (copy)
+         BEFORE diff_recheck_method sees it: the stored method of an edited file is not kept *)
+      let m := match mreq with Some m => m | None => MCopy end in
       Some {| tp_p := p; tp_new := isnew; tp_changed := changed; tp_stamp := s; tp_data := b;
               tp_method := if changed then m else or_default stored MCopy;
               tp_method_ev := changed && match stored with Some sm => negb (method_eqb sm m) | None => true end;
@@ -592,3 +594,17 @@ Definition K_object_left_writable (n : nat) (l : list fsop) : bool :=
 Definition K_any (n : nat) (l : list fsop) : bool :=
   K_torn_event_file n l || K_crash_during_workspace_copy n l
   || K_crash_between_records_and_content n l || K_partial_record_set n l || K_object_left_writable n l.
+
+(* P23 restated for content that is ALREADY in the cache (the bytes to commit are those of an older
+   version or of another file): move_to_cache is skipped, no rename happens and
+   K_crash_between_records_and_content does not fire, but the order of effects is the same: the content
+   step of carry_in() is then the removal of the workspace file (followed by the link / copy out of the
+   cache).  A candidate widening of the class; not part of K_any (Props/C07.v: the statement "outside the
+   four classes" is refuted for track and carry-in, and holds on the swept instances with this one). *)
+Definition replaces_content (o : fsop) : bool :=
+  match o with Rename (LWs _) (LObj _) | Unlink (LWs _) => true | _ => false end.
+Definition K_crash_between_records_and_replacement (n : nat) (l : list fsop) : bool :=
+  let done := firstn n l in
+  let todo := skipn n l in
+  (existsb completes_record_save done && existsb replaces_content todo)
+  || (existsb replaces_content done && existsb completes_record_save todo).
